@@ -16,7 +16,7 @@ From LC Require Import Lib.Bytes Lib.Lex Lib.Fields Lib.PathM Gen.Consts
 
 (* somebody else mounting by hand: not layercake *)
 Definition is_manual (cmd : command) : bool :=
-  match cmd with CKMount _ _ _ _ _ | CKUmount _ => true | _ => false end.
+  match cmd with CKMount _ _ _ _ _ | CKUmount _ | CEdit _ _ => true | _ => false end.
 
 (* ------------------------------------------------------------------ quiet programs *)
 Definition quiet {A} (m : M A) : Prop :=
@@ -72,8 +72,12 @@ Proof. unfold drop_tmp. apply quiet_bind; [apply quiet_get_fs | intros f; apply 
 
 Lemma quiet_manual e c um cmd : is_manual cmd = true -> quiet (run_command e c um cmd).
 Proof.
-  destruct cmd; cbn [is_manual]; try discriminate; intros _; cbn [run_command];
-    (apply quiet_bind; [apply quiet_apply_op | intros _; apply quiet_ret]).
+  destruct cmd; cbn [is_manual]; try discriminate; intros _; cbn [run_command].
+  - apply quiet_bind; [apply quiet_apply_op | intros _; apply quiet_ret].
+  - apply quiet_bind; [apply quiet_apply_op | intros _; apply quiet_ret].
+  - apply quiet_bind; [apply quiet_get_fs | intros f].
+    destruct (open_trunc f p); [|apply quiet_fail].
+    apply quiet_bind; [apply quiet_put_fs | intros _; apply quiet_ret].
 Qed.
 
 (* ------------------------------------------------------------------ the failure handler *)
@@ -134,6 +138,7 @@ Variables e1 e2 : env.
 Variable R : forall A : Type, M A -> M A -> Prop.
 Hypothesis H_order : e_order e1 = e_order e2.
 Hypothesis H_force : e_force e1 = e_force e2.
+Hypothesis H_pretend : e_pretend e1 = e_pretend e2.   (* makedirs looks at -p when it sets the state *)
 Hypothesis R_ret : forall A (a : A), R A (ret a) (ret a).
 Hypothesis R_fail : forall A, R A fail fail.
 Hypothesis R_diverge : forall A, R A diverge diverge.
@@ -264,7 +269,7 @@ Lemma R_rebase_layer c ld a b : R _ (rebase_layer e1 c ld a b) (rebase_layer e2 
 Proof. unfold rebase_layer. rauto2. Qed.
 
 Lemma R_makedirs c ld a : R _ (makedirs e1 c ld a) (makedirs e2 c ld a).
-Proof. unfold makedirs. rauto2. Qed.
+Proof. unfold makedirs. rewrite H_pretend. rauto2. Qed.
 
 Lemma R_mount_loop c xs : forall ld, R _ (mount_loop e1 c xs ld) (mount_loop e2 c xs ld).
 Proof.
